@@ -2,7 +2,7 @@
    Models: Model/RankChoice.v (rank selection of truncated_svd, executable over Q), Model/RoundReplay.v (round_tt with
    the factorisations replayed; tied to the implementation by harness/props/c04.py), Proofs/RoundAlg.v (sweep step,
    projection error; any commutative ring), Proofs/BudgetR.v (budget arithmetic over R). *)
-From TN Require Import Proofs.RankChoiceP Proofs.RoundAlg Proofs.OrthoP Proofs.SandwichP Proofs.BudgetR.
+From TN Require Import Proofs.RankChoiceP Proofs.RoundAlg Proofs.OrthoP Proofs.SandwichP Proofs.SweepP Proofs.BudgetR Proofs.SweepR Alg.InstR.
 From Coq Require Import Reals.
 
 (* rank selection: the discarded tail energy is within delta^2 (or nothing is discarded) ... *)
@@ -57,15 +57,28 @@ Proof. exact (core_difference K Kth). Qed.
 (* the error of a step (rows orthogonal to the retained rows: E R^T = 0) is orthogonal to every later change, all of
    which keep the retained core R and the suffix behind it *)
 Theorem C04_orthogonal_steps : forall (X Y : list (score K)) (e r : score K) suf,
-  same_dims K X Y -> dm e = dm r -> rr e = rr r -> rchain K (rr e) suf ->
-  (forall p p', sumn (dm e) (fun i => sumn (rr e) (fun q => sl e i p q * sl r i p' q)) = 0) ->
-  hd1 K (X ++ e :: suf) = 1%nat -> hd1 K (Y ++ r :: suf) = 1%nat ->
+  same_dims K X Y -> wfpre K 1 X (rl e) -> wfpre K 1 Y (rl r) ->
+  dm e = dm r -> rr e = rr r -> rchain K (rr e) suf ->
+  (forall p p', (p < rl e)%nat -> (p' < rl r)%nat ->
+     sumn (dm e) (fun i => sumn (rr e) (fun q => sl e i p q * sl r i p' q)) = 0) ->
   sumidx (sshape (X ++ e :: suf)) (fun idx => eval (X ++ e :: suf) idx * eval (Y ++ r :: suf) idx) = 0.
 Proof. exact (orthogonal_steps K Kth). Qed.
 (* pairwise orthogonal changes add up in squares *)
 Theorem C04_pythagoras : forall sh (Ds : list (list nat -> K)), pairwise_orth K sh Ds ->
   sumidx sh (fun idx => sum_fns K Ds idx * sum_fns K Ds idx) = sum_sq K sh Ds.
 Proof. exact (pythagoras K Kth). Qed.
+(* the whole right-to-left sweep of round_tt (network level; the retained cores rs are the oracle's answers, only required
+   to be right-orthonormal with the right sizes): the squared error is exactly the sum of the squared step errors *)
+Theorem C04_sweep_error : forall (rp : list (score K)) (c : score K) (suf : list (score K)) (rs : list (score K)),
+  lgauge K rp (rl c) -> rchain K (rr c) suf -> steps_ok K rp c rs ->
+  let T0 := rev rp ++ c :: suf in
+  sumidx (sshape T0) (fun idx => (eval T0 idx - eval (sweep K rp c suf rs) idx) * (eval T0 idx - eval (sweep K rp c suf rs) idx))
+  = sumK K (step_errs K rp c rs).
+Proof. exact (sweep_error K Kth). Qed.
+(* the error core of a step is row-orthogonal to the retained core *)
+Theorem C04_step_error_orthogonal : forall (c r : score K), step_ok K c r -> forall p a', (a' < rl r)%nat ->
+  sumn (dm (csub K c (lr K c r))) (fun i => sumn (rr (csub K c (lr K c r))) (fun q => sl (csub K c (lr K c r)) i p q * sl r i a' q)) = 0.
+Proof. exact (err_orth K Kth). Qed.
 End C04.
 
 Local Open Scope R_scope.
@@ -76,6 +89,14 @@ Proof. exact tt_budget. Qed.
 Theorem C04_steps_within_budget : forall (es : list R) (eps nrm : R),
   Forall (fun e => e <= (tt_delta eps nrm (length es))²) es -> fold_right Rplus 0 es <= (eps * nrm)².
 Proof. exact steps_within_budget. Qed.
+(* end to end, over the reals: gauge + right-orthonormal answers + each step within delta^2 ==> relative error <= eps *)
+Theorem C04_round_tt_bound : forall (rp : list (score RO)) (c : score RO) (suf rs : list (score RO)) (eps nrm : R),
+  lgauge RO rp (rl c) -> rchain RO (rr c) suf -> steps_ok RO rp c rs ->
+  Forall (fun e => e <= (tt_delta eps nrm (length (step_errs RO rp c rs)))²) (step_errs RO rp c rs) ->
+  let T0 := rev rp ++ c :: suf in
+  sumidx (K:=RO) (sshape T0) (fun idx => ((eval T0 idx - eval (sweep RO rp c suf rs) idx) * (eval T0 idx - eval (sweep RO rp c suf rs) idx))%K)
+  <= (eps * nrm)².
+Proof. exact round_tt_sweep_bound. Qed.
 Theorem C04_tucker_budget : forall (eps nrm : R) (n : nat), (0 < n)%nat -> INR n * (eps / sqrt (INR n) * nrm)² = (eps * nrm)².
 Proof. exact tucker_budget. Qed.
 (* round(): the Tucker stage receives (1+eps)/(1+reached)-1 > 0 and the two stages together stay within eps *)
@@ -95,7 +116,10 @@ Print Assumptions C04_sandwich_norm.
 Print Assumptions C04_core_difference.
 Print Assumptions C04_orthogonal_steps.
 Print Assumptions C04_pythagoras.
+Print Assumptions C04_sweep_error.
+Print Assumptions C04_step_error_orthogonal.
 Print Assumptions C04_steps_within_budget.
+Print Assumptions C04_round_tt_bound.
 Print Assumptions C04_tt_budget.
 Print Assumptions C04_tucker_budget.
 Print Assumptions C04_round_budget_positive.
